@@ -147,4 +147,6 @@ def tags(case, out):
         t.append("variable-free")
     if out.get("tab"):
         t.append("uses-exp")
+    if any(abs(v[0]) >= 2 ** 20 * v[1] for _, v in case["terms"] if _):
+        t.append("coefficients-need-25-bits")
     return t
